@@ -288,6 +288,10 @@ func RandWord(r *rand.Rand, hazard float64) string {
 	if r.Float64() < hazard {
 		return hazardWords[r.Intn(len(hazardWords))]
 	}
+	if r.Intn(150) == 0 {
+		// a blank-free token longer than any line (URL, accession list): cannot be wrapped
+		return "http://example.org/" + RandWordAlnum(r, 50+r.Intn(90))
+	}
 	n := 1 + r.Intn(12)
 	b := make([]byte, n)
 	plain := r.Intn(3) != 0
